@@ -357,6 +357,17 @@ def families(model, seed: int):
             calls.append({"k": "path", "uri": uri, "config": None, "style": "default"})
     if calls:
         fams.append(calls[:33])
+    # one family of call SPELLINGS: the same unfold request with one flag set, written positionally, by keyword, and with only the
+    # set flag given by keyword - on the same strings, in both orders (cache keys must tell the flags apart)
+    calls = []
+    for t, f, s in picked[:6]:
+        segs = s.split("/")
+        x = "/".join(segs[:-1] + ["*"])
+        for u, e in ((True, False), (False, True)):
+            calls.append({"k": "unfold", "s": x, "u": u, "e": e, "style": "sparse"})
+            calls.append({"k": "unfold", "s": x, "u": u, "e": e, "style": "pos"})
+        calls.append({"k": "unfold", "s": x, "u": False, "e": False, "style": "default"})
+    fams.append(calls[:33])
     return fams
 
 
